@@ -14,16 +14,25 @@ CLAIMS = {
        "(returns exactly when the delivered data ends with the prompt for the first time, result = text of the data before it, "
        "no transport request beyond READ_CHUNK_SIZE, time-out/hang only if no delivered prefix ended with the prompt). The same Spec is "
        "evaluated on the real Channel's observations for thousands of generated (stream, prompt, composition, schedule) cases and the "
-       "model's observation is compared token by token.",
+       "model's observation is compared token by token. Auxiliary check C02G (reported under C02): theorems C02G.spec_holds, "
+       "rupG_some/none, gPromptEnd_iff/none, returns_at_prompt, timeout_never_at_prompt for regex prompts behind a one-byte "
+       "look-behind assertion (\\b, ^ under MULTILINE, (?<=[..]), (?<![..])) — the loop returns at the first delivery after which "
+       "the least offset whose previous byte satisfies the look-behind and from which the rest is in the language exists; the real "
+       "Channel (configured and per-call prompts) is compared with the model and judged by Spec.C02G.",
   note="partial: CPython re / bytes.decode / str.replace are represented by Lean functions validated by the same differential cases; "
-       "regex prompts restricted to the modelled subset; the model is hand-written and tied to the code by testing, not by proof.",
+       "regex prompts restricted to the modelled subset (classes, sequence, alternation, bounded repetition, end anchor; "
+       "plus a leading one-byte look-behind in C02G, whose loop model has no time-outs or chunking); the model is hand-written and tied to the code by testing, not by proof.",
   ref="DESIGN.md section 4 C02"),
  "C04": dict(
   text="Theorem C04.expect_spec: for every channel state, pattern list, timeout and script, expect() returns at the first delivered "
        "piece after which some pattern matches, names the lowest-indexed matching pattern, and before/match/after are the text of the "
        "consumed data around that pattern's first match (Pat.search_bound: 0 <= start <= end <= consumed). Spec.c04 is also evaluated "
-       "on the real Channel for generated cases; model and implementation observations are compared.",
-  note="partial: CPython re.search on the regex subset and bytes.find are modelled (Re.M / findSub) and validated by the same cases.",
+       "on the real Channel for generated cases; model and implementation observations are compared. The modelled regex subset "
+       "includes positive look-ahead (Re.la; theorem Re.M_la_iff: it succeeds, consuming nothing, iff a prefix of the rest of the "
+       "input is in the language — bytes that do not count in the pattern's width), and the generator cuts the stream inside the "
+       "looked-ahead text.",
+  note="partial: CPython re.search on the regex subset (classes, sequence, alternation, bounded greedy repetition, positive "
+       "look-ahead) and bytes.find are modelled (Re.M / findSub) and validated by the same cases.",
   ref="DESIGN.md section 4 C04"),
  "C07": dict(
   text="Theorem C07.c07 / run_refines: for EVERY history of borrow (any nesting), take, end of borrow, I/O, closed/close/__exit__ and "
